@@ -92,10 +92,33 @@ Definition carousel (c : config) (cl : Z) (rnd : Z -> Z) (h : head) (round : vie
         let cands := candidates (c_n c) h signers in
         let seed := i64_wrap (c_seed c + i64_of_u64 round) in
         let len := Z.of_nat (length cands) in
-        if Z.eqb len 0 then Panic                           (* integer divide by zero *)
+        if Z.eqb len 0 then choose_round_robin round (c_n c)   (* no candidate: round-robin
+                                                                 (fixes/C16-carousel-no-candidates.patch) *)
         else
           let i := Z.rem (rnd seed) len in                  (* Go's % truncates toward zero *)
           if Z.ltb i 0 then Panic                           (* index out of range *)
+          else match nth_error cands (Z.to_nat i) with
+               | Some l => Ok l
+               | None => Panic
+               end
+  end.
+
+(* The code before that repair: candidates[rnd.Int()%len(candidates)] with an empty candidate list is an
+   integer division by zero.  Kept as the witness that "no scheme panics" was false (C16_carousel_unfixed_refuted). *)
+Definition carousel_unfixed (c : config) (cl : Z) (rnd : Z -> Z) (h : head) (round : view) : result rid :=
+  match h_qc h with
+  | None => choose_round_robin round (c_n c)
+  | Some signers =>
+      if negb (N.eqb (h_view h) (u64_sub (u64 round) (u64_of_int cl)))
+      then choose_round_robin round (c_n c)
+      else
+        let cands := candidates (c_n c) h signers in
+        let seed := i64_wrap (c_seed c + i64_of_u64 round) in
+        let len := Z.of_nat (length cands) in
+        if Z.eqb len 0 then Panic                           (* integer divide by zero *)
+        else
+          let i := Z.rem (rnd seed) len in
+          if Z.ltb i 0 then Panic
           else match nth_error cands (Z.to_nat i) with
                | Some l => Ok l
                | None => Panic
